@@ -340,6 +340,12 @@ func genDebModel(r *core.Rand) debModel {
 	if r.Chance(1, 3) {
 		files = files[:pos+1]
 	}
+	if r.Chance(1, 6) {
+		// a large file ahead of ./control, so that the control file straddles a 32 KiB boundary of
+		// the decompressed stream (a single Read of a tar-over-gzip stream comes back short there)
+		big := tarFile{Name: "./md5sums", Body: strings.Repeat("d41d8cd98f00b204e9800998ecf8427e  usr/share/doc/foo/file\n", r.Pick2(r.Range(540, 560), r.Range(1100, 1120)))}
+		files = append([]tarFile{big}, files...)
+	}
 	m.CtlFiles = files
 	m.DataFiles = []tarFile{{Name: "./", Dir: true}, {Name: "./usr/", Dir: true}}
 	for n := r.Intn(4); n > 0; n-- {
@@ -451,9 +457,21 @@ func streamDeb(g *core.G) {
 	}
 }
 
+var prevDeb struct {
+	sync.Mutex
+	data   []byte
+	digest string
+}
+
 func emitDebModel(g *core.G, m debModel) {
 	ms := m.members()
 	data := buildAr(ms)
+	prevDeb.Lock()
+	if prevDeb.data != nil {
+		g.Emit("law-debtwo", core.Hex(string(prevDeb.data)), core.Hex(string(data)), prevDeb.digest, m.dataDigest())
+	}
+	prevDeb.data, prevDeb.digest = data, m.dataDigest()
+	prevDeb.Unlock()
 	emitDeb(g, data)
 	args := []string{core.Hex(string(data)), core.Hex("tar" + m.CtlExt), core.Hex("tar" + m.DataExt), memberNamesHex(ms), m.dataDigest()}
 	g.Emit("law-deb", append(args, expectedRecordDump(codecTypes["DebControl"], m.Expect)...)...)
@@ -472,7 +490,7 @@ func streamDebfuzz(g *core.G) {
 		case 0: // decoy / duplicate members
 			d := ms[r.Intn(len(ms))]
 			if r.Bool() {
-				d.Name = r.Pick([]string{"control.tar.zz", "data.tar.zz", "control.x", "data.", "control.tar.gz", "data.tar"})
+				d.Name = r.Pick([]string{"control.tar.zz", "data.tar.zz", "control.x", "data.", "control.tar.gz", "data.tar", "control.new.tar", "data.new.tar", "control.sig", "data.list", "control.old.tar.gz"})
 			}
 			pos := r.Intn(len(ms) + 1)
 			ms = append(ms[:pos], append([]arMember{d}, ms[pos:]...)...)
@@ -570,6 +588,7 @@ func streamDebsig(g *core.G) {
 		krIn, krOut, krEmpty := []*openpgp.Entity{ks[0], ks[1]}, []*openpgp.Entity{ks[2]}, []*openpgp.Entity{}
 		emitDebsig(g, good, role, krIn)
 		g.Emit("law-debsig", core.Hex(string(good)), core.Hex(role), core.Hex(serializeKeyring(krIn)), "accept", fmt.Sprintf("ok:%016x", signer.PrimaryKey.KeyId))
+		g.Emit("law-debsig-seq", core.Hex(string(good)), core.Hex(role), core.Hex(serializeKeyring(krIn)), core.Hex(serializeKeyring(krOut)))
 		emitDebsig(g, good, role, krOut)
 		g.Emit("law-debsig", core.Hex(string(good)), core.Hex(role), core.Hex(serializeKeyring(krOut)), "reject", "")
 		emitDebsig(g, good, role, krEmpty)
@@ -596,7 +615,7 @@ func streamDebsig(g *core.G) {
 		}
 		// decoy control.* / data.* members before / after the real ones
 		for rep := g.N(3, 8); rep > 0; rep-- {
-			decoy := arMember{Name: r.Pick([]string{"control.tar.gz2", "control.tar", "data.tar.gz2", "data.tar.zz", "control.tar.gz", "data.tar"}), TS: "0", UID: "0", GID: "0", Mode: "100644"}
+			decoy := arMember{Name: r.Pick([]string{"control.tar.gz2", "control.tar", "data.tar.gz2", "data.tar.zz", "control.tar.gz", "data.tar", "control.new.tar", "data.new.tar", "control.old.tar", "data.bak.tar"}), TS: "0", UID: "0", GID: "0", Mode: "100644"}
 			dm := genDebModel(r)
 			if strings.HasPrefix(decoy.Name, "control") {
 				decoy.Data = compress("", buildTar(dm.CtlFiles))
@@ -634,6 +653,43 @@ func init() {
 			} else if err == nil {
 				return fmt.Sprintf("FAIL accepted on repetition %d although the package was tampered with / the key or role is wrong", i)
 			}
+		}
+		return "ok"
+	}
+	// law (C16): on ONE loaded package a check that succeeded says nothing about a later check
+	// with an unrelated or empty keyring, or for another role: those must fail
+	debImpl["law-debsig-seq"] = func(a []string) string {
+		data := []byte(core.MustUnHex(a[0]))
+		d, err := deb.Load(bytes.NewReader(data), "x.deb")
+		if err != nil {
+			return "ok"
+		}
+		defer d.Close()
+		role := core.MustUnHex(a[1])
+		d.CheckDebsig(readKeyring(a[2]), role)
+		if e, err := d.CheckDebsig(readKeyring(a[3]), role); err == nil {
+			return fmt.Sprintf("FAIL after a successful check, a check against an unrelated keyring succeeds too (signer %v)", e != nil)
+		}
+		if _, err := d.CheckDebsig(openpgp.EntityList{}, role); err == nil {
+			return "FAIL after a successful check, a check against an empty keyring succeeds too"
+		}
+		return "ok"
+	}
+	// law (C14): two packages open at the same time do not disturb each other's data stream
+	debImpl["law-debtwo"] = func(a []string) string {
+		da, err := deb.Load(bytes.NewReader([]byte(core.MustUnHex(a[0]))), "a.deb")
+		if err != nil {
+			return "FAIL load a: " + err.Error()
+		}
+		db, err := deb.Load(bytes.NewReader([]byte(core.MustUnHex(a[1]))), "b.deb")
+		if err != nil {
+			return "FAIL load b: " + err.Error()
+		}
+		ga, gb := debDataDigest(da), debDataDigest(db)
+		da.Close()
+		db.Close()
+		if ga != a[2] || gb != a[3] {
+			return fmt.Sprintf("FAIL data listings with both packages open: %s %s, packaged: %s %s", ga, gb, a[2], a[3])
 		}
 		return "ok"
 	}
